@@ -353,6 +353,18 @@ def apply_chain(wb, chain):
             return None, None
         cur = found[0]
         shifts.append(found[1])
+    # an explicit header row (written by the column permutation) must name every column the later
+    # transformations renamed or added: rebuild it from the rows, keeping its order where it still applies
+    for k in [k for k in cur if k.endswith("_header")]:
+        sheet = k[: -len("_header")]
+        keys = {}
+        for r in cur.get(sheet, ()):
+            for c in r:
+                keys[c] = None
+        old = [h for h in cur[k][0] if h in keys]
+        if set(old) != set(keys):
+            cur = dict(cur)
+            cur[k] = [{h: None for h in [*old, *[c for c in keys if c not in old]]}]
     return cur, shifts
 
 
